@@ -192,23 +192,22 @@ CLAIMED = {
             "(BBJLP 2008) and extended (HWCD 2008) coordinates return a representation of the affine sum and the extended ones re-establish "
             "T*Z = X*Y; ed_neg, ed_norm denote -P, P; ed_cmp's cross-multiplication decides equality of the affine points; the affine law is closed "
             "on the curve, commutative, with neutral element (0,1) and inverse (-x,y); (3) ed_mul_basic/monty/lwnaf/slide/lwreg, "
-            "ed_mul_fix_basic/lwnaf/combs, ed_mul_sim_basic/trick/inter/joint return k•P (k•P + m•Q) in any additive commutative group for every "
-            "scalar they accept, and the rejection domain is characterised exactly; (4) ed_read_bin accepts only curve points in canonical form "
+            "ed_mul_fix_basic/lwnaf/combs, ed_mul_sim_basic/trick/inter/joint and the generator-table branch of ed_mul_sim_gen never reject and "
+            "return k•P (k•P + m•Q) for every integer scalar in any additive commutative group killed by r; (4) ed_read_bin accepts only curve points in canonical form "
             "of the three advertised shapes, decode∘encode = id on curve points (compressed and not), encode∘decode = id except on the two "
-            "redundant forms of the format, ed_upk∘ed_pck = id. PARTIAL: the multiplication theorems carry the guard 'the scalar fits the routine's "
-            "fixed-size recoding array / table' because the library never reduces the scalar modulo r: without the guard they are false for the "
-            "code (known findings C17-F1 reported error, C17-F2/F5 silent wrong result / out-of-bounds access); associativity of the law is "
-            "the classical theorem and is not re-proved; hashing to the curve (ed_map, ed_map_dst) is class C: compared on every run with an "
-            "executable RFC 9380 specification (expand_message_xmd/SHA-256, Elligator 2, birational map, cofactor clearing) incl. r*P = O. "
+            "redundant forms of the format, ed_upk∘ed_pck = id. The multiplication theorems are at full strength — total, k•P for EVERY integer k on "
+            "points killed by r, r < 2^RLC_FP_BITS — since the routines reduce the scalar modulo r (the /repo fixes of the eight defects this check "
+            "found, C17-F1..F8, are recorded as fixed). PARTIAL: associativity of the law is the classical theorem and is not re-proved; hashing to "
+            "the curve (ed_map, ed_map_dst) is class C: compared on every run with an executable RFC 9380 specification "
+            "(expand_message_xmd/SHA-256, Elligator 2, birational map, cofactor clearing) incl. r*P = O. "
             "Tie: ~3900 lines per run: every add/sub/dbl/neg/norm/cmp/mul/mul_fix/mul_sim variant by name in the PROJC, EXTND and BASIC builds, "
             "all torsion points and their sums with subgroup points, random Z, all alias patterns, all scalar classes, valid and malformed "
-            "encodings; the model column is the generated formula code resp. the loop models with the C buffer sizes (predicts ERR_NO_BUFFER).",
+            "encodings; the model column is the generated formula code resp. the loop models with the C buffer sizes.",
             "Trusted: Lean kernel; translator tools/translate_ed.py (accepted fragment listed there); hand-written models of ed_is_infty, ed_cmp, "
             "the multiplication loops and the encodings tied by correspondence; curve constants read from the running library (generator on "
             "curve, a square / d non-square by Euler, r*G = O, 8-torsion orders evaluated by the driver; primality of p and r not established "
             "here); fp_srt / fp_inv enter the encoding theorems through their contracts (C02 class C); comb-d, sim_lot, mul_dig, ed_blind, "
-            "ed_on_curve are compared only. Known findings C17-F1..F8 (long scalars; ed_mul_lwreg T coordinate and 1-byte stack overrun; "
-            "ed_sub_extnd outside the EXTND build; ed_neg_basic leaves z; ed_upk status).",
+            "ed_on_curve are compared only. No known finding is listed (C17-F1..F8 repaired in /repo).",
             "findings/C17-design.md; findings/C17-1.md"),
     "C10": ("Translator (45 straight-line tower functions of src/fpx regenerated into Lean on every run and proved equal to the model "
             "definitions) + Lean 4 proofs (generic polynomial-quotient layer = R[X]/(X^k - c) via evaluation at any root, incl. Mathlib's AdjoinRoot; every "
